@@ -267,14 +267,14 @@ def time_token(v):
     return to_wire(v)
 
 
-TIME_STYLES = ["int", "float", "negfloat", "bool", "tint", "tfloat", "tfloat32", "tint32", "bigint"]
+TIME_STYLES = ["int", "int", "float", "negfloat", "bool", "tint", "tint", "tint", "tfloat", "tfloat32", "tint32", "bigint"]
 
 
 def gen_time(rng, style=None):
     """{"v": python number, "as": how it is handed to the API}"""
     style = style or rng.choice(TIME_STYLES)
     if style == "int":
-        return {"v": rng.randint(-4, 40), "as": "py"}
+        return {"v": rng.choice([-3, -1, 0, 1, 2, 5, 17, 36, 39, 40, 1000]) if rng.random() < 0.5 else rng.randint(-4, 40), "as": "py"}
     if style == "float":
         return {"v": rng.randint(0, 30) + rng.choice([0.25, 0.5, 0.75, 0.999]), "as": "py"}
     if style == "negfloat":
@@ -282,7 +282,7 @@ def gen_time(rng, style=None):
     if style == "bool":
         return {"v": True, "as": "py"}
     if style == "tint":
-        return {"v": rng.randint(-4, 40), "as": "int64"}
+        return {"v": rng.choice([-3, -1, 0, 1, 2, 5, 17, 36, 39, 40, 1000]) if rng.random() < 0.6 else rng.randint(-4, 40), "as": "int64"}
     if style == "tint32":
         return {"v": rng.randint(0, 40), "as": "int32"}
     if style == "tfloat":
@@ -702,11 +702,15 @@ def check_lin(ctx: Ctx, case):
                     ok = False
                 else:
                     # oracle: exact rational equations per batch item, time slice from the clock law
-                    want_shape_x = tuple(torch.broadcast_shapes(tuple(case["bA"]), tuple(case["bB"]), tuple(case["bc1"]) if c1 is not None else (),
-                                                                tuple(xb.shape[:-1]), tuple(ub.shape[:-1]))) + (n,)
-                    if tuple(xn.shape) != want_shape_x:
-                        ctx.fail({**case, "at": i}, f"lin-shape: next state has shape {tuple(xn.shape)}, broadcasting gives {want_shape_x}")
-                        ok = False
+                    bsx = tuple(torch.broadcast_shapes(tuple(case["bA"]), tuple(case["bB"]), tuple(case["bc1"]) if c1 is not None else (),
+                                                       tuple(xb.shape[:-1]), tuple(ub.shape[:-1])))
+                    bsy = tuple(torch.broadcast_shapes(tuple(case["bC"]), tuple(case["bD"]), tuple(case["bc2"]) if c2 is not None else (),
+                                                       tuple(xb.shape[:-1]), tuple(ub.shape[:-1])))
+                    if not (isinstance(xn, torch.Tensor) and isinstance(y, torch.Tensor)) or tuple(xn.shape) != bsx + (n,) or tuple(y.shape) != bsy + (p,):
+                        ctx.fail({**case, "at": i}, f"lin-shape: call returned shapes {tuple(getattr(xn, 'shape', ()))}, {tuple(getattr(y, 'shape', ()))}; "
+                                                    f"the equations with broadcasting give {bsx + (n,)}, {bsy + (p,)}")
+                        case["_lines"], case["_impl"] = [], []
+                        return False
                     for idx in idxs:
                         def it(X, b):
                             Xs = X[..., sl, :, :] if (ltv and X.ndim - len(b) == 3) else (X[..., sl, :] if (ltv and X is not None) else X)
@@ -1080,6 +1084,7 @@ def check_nls(ctx: Ctx, case, model_doc=None, model_alias=None, oracle_budget=No
                 return False
             if raised is None and not can:
                 ctx.disagree("nls.ref", {**strip(case), "at": i}, "set_refpoint with unresolved state/input did not raise")
+                return ok
             if md and ((md[1] == "R") != (raised is not None)):
                 ctx.disagree("nls.ref", {**strip(case), "at": i}, f"set_refpoint outcome: implementation {'raised' if raised else 'ok'}, model {md[1]}")
             if raised is None:
@@ -1137,14 +1142,19 @@ def check_nls(ctx: Ctx, case, model_doc=None, model_alias=None, oracle_budget=No
                 if md and md[1] == "L" and shapes_ok and have_ref:
                     t_doc = ref["t"]
                     t_alias = ref["t"] if ref["mode"] == "value" else clock
-                    tolsd = nls_tolerances(case, ref["x"], ref["u"], t_doc, t_doc, eps) if ref["ok"] else None
-                    tolsa = nls_tolerances(case, ref["x"], ref["u"], t_alias, t_doc, eps) if ref["ok"] else None
+                    if ref["ok"]:
+                        tolsd = nls_tolerances(case, ref["x"], ref["u"], t_doc, t_doc, eps)
+                        tolsa = nls_tolerances(case, ref["x"], ref["u"], t_alias, t_doc, eps)
+                    else:
+                        # a failed set_refpoint may have left a mix of old and new attributes (modelled statement by
+                        # statement): tolerance from the largest magnitudes that occur anywhere in the history
+                        hx = [max([abs(ev_[k2][j]) for ev_ in case["events"] for k2 in ("x",) if ev_.get(k2) is not None and len(ev_[k2]) > j] + [0.0]) for j in range(nx)]
+                        hu = [max([abs(ev_["u"][j]) for ev_ in case["events"] if ev_.get("u") is not None and len(ev_["u"]) > j] + [0.0]) for j in range(nu)]
+                        ht = max([abs(float(ev_["t"]["v"])) for ev_ in case["events"] if isinstance(ev_.get("t"), dict)] + [float(len(case["events"]))])
+                        tolsd = tolsa = nls_tolerances(case, hx, hu, ht, ht, eps)
 
                     def close(mnums, tols):
-                        if tols is None:
-                            tols_flat = [1e-6 * (1 + abs(float(v))) for v in mnums]
-                        else:
-                            tols_flat = sum((tols[nm] for nm in names), [])
+                        tols_flat = sum((tols[nm] for nm in names), [])
                         if len(mnums) != len(flat_got):
                             return False, -1
                         for q_, (gv, mv, tl) in enumerate(zip(flat_got, mnums, tols_flat)):
@@ -1438,10 +1448,10 @@ def run(ctx: Ctx):
     torch.set_num_threads(2)
     q = ctx.quick
     seeds = lambda n: [rng.randrange(1 << 40) for _ in range(n)]
-    run_clock(ctx, [gen_clock_case(s, q) for s in seeds(ctx.pick(300, 4000))])
-    run_lin(ctx, [gen_lin_case(s, q) for s in seeds(ctx.pick(500, 7000))])
+    run_clock(ctx, [gen_clock_case(s, q) for s in seeds(ctx.pick(600, 6000))])
+    run_lin(ctx, [gen_lin_case(s, q) for s in seeds(ctx.pick(700, 7000))])
     run_bmv(ctx, [gen_bmv_case(s, q) for s in seeds(ctx.pick(300, 4000))])
-    run_nls(ctx, [gen_nls_case(s, q) for s in seeds(ctx.pick(450, 7000))], ctx.pick(500, 8000))
+    run_nls(ctx, [gen_nls_case(s, q) for s in seeds(ctx.pick(650, 7000))], ctx.pick(700, 8000))
 
 
 def search(ctx: Ctx):
